@@ -74,6 +74,7 @@ type RunResult struct {
 	MapRangeSites map[string]string
 	BoundPrunes  map[string]int64
 	CrossChecked, CrossUnknown int64
+	SolverDecided int64 // assertions that were not constant after simplification and went to the solver
 	MemEvents    int64
 	Samples      []string
 }
@@ -93,6 +94,7 @@ type Run struct {
 	forks, enumCount, memEvents     atomic.Int64
 	merges                          atomic.Int64
 	crossChecked, crossUnknown      atomic.Int64
+	oblSolver                       atomic.Int64
 	paths, done, killed, panicked   atomic.Int64
 	failed, steps, obl, discharged  atomic.Int64
 	violations                      []Violation
@@ -233,6 +235,7 @@ func (st *State) assertProp(c *Term, label string) {
 		return // the run continues past the failed assertion (as the native harness would not, but later witnesses stay reachable)
 	}
 	r.obl.Add(1)
+	r.oblSolver.Add(1)
 	res, m := st.w.solver.Check(st.pc, Not(c), true)
 	if r.Opts.CrossSolver != "" && res != Unknown {
 		if st.w.cross == nil {
@@ -431,7 +434,7 @@ func (p *Program) Explore(name string, entry *ssa.Function, args []Value, opts O
 	res := &RunResult{Harness: name, Paths: r.paths.Load(), Done: r.done.Load(), Killed: r.killed.Load(), Panicked: r.panicked.Load(),
 		Failed: r.failed.Load(), Forks: r.forks.Load(), Steps: r.steps.Load(), Obligations: r.obl.Load(), Discharged: r.discharged.Load(),
 		Violations: r.violations, Reached: r.reached, Wall: time.Since(t0), Logs: r.logs, MemEvents: r.memEvents.Load(), Samples: r.samples,
-		MapRangeSites: map[string]string{}, BoundPrunes: r.prunes, CrossChecked: r.crossChecked.Load(), CrossUnknown: r.crossUnknown.Load()}
+		MapRangeSites: map[string]string{}, BoundPrunes: r.prunes, CrossChecked: r.crossChecked.Load(), CrossUnknown: r.crossUnknown.Load(), SolverDecided: r.oblSolver.Load()}
 	r.mapRangeSites.Range(func(k, v any) bool { res.MapRangeSites[k.(string)] = v.(string); return true })
 	for _, w := range workers {
 		if w.solver.Err != "" {
